@@ -79,6 +79,12 @@ func newPos(l *lookup, fileName, funcName string, line, column int) pos {
 	// return struct{}{}
 	fileNameIdx := l.Index("#" + fileName)
 	funcNameIdx := l.Index("#" + funcName)
+	if line > 0xffff { // 16 bits each: a larger value would spill into the neighbouring field
+		line = 0xffff
+	}
+	if column > 0xffff {
+		column = 0xffff
+	}
 	return pos((fileNameIdx << 48) | (funcNameIdx << 32) | (line << 16) | column)
 }
 
